@@ -757,6 +757,8 @@ def write_replay(check, prop, population, i, trace, violation_json, digest,
         body['hashseed'] = sb.split('=', 1)[1]
     elif sb.startswith('pyopt='):
         body['pyopt'] = 1
+    elif sb.startswith('pywarn='):
+        body['pywarn'] = sb.split('=', 1)[1]
     key = hashlib.sha1(json.dumps([prop, violation_json.get('class'),
                                    trace], sort_keys=True).encode()
                        ).hexdigest()[:12]
